@@ -63,6 +63,9 @@ type Tree struct {
 	DerefTarget func(src string) *sdcpb.Path
 	CallsAfterFailure int
 	failed            bool
+	// OnCall, if set, is called with the number of each failing-capable callback before it is answered
+	// (used to cancel the Go context of the run at a chosen point).
+	OnCall func(n int)
 }
 
 type entry struct {
@@ -75,6 +78,9 @@ func (t *Tree) Root() xpath.Entry { return &entry{t: t, path: "."} }
 
 func (t *Tree) hit(call string) error {
 	t.NCalls++
+	if t.OnCall != nil {
+		t.OnCall(t.NCalls)
+	}
 	t.Calls = append(t.Calls, call)
 	if t.failed {
 		t.CallsAfterFailure++
@@ -223,13 +229,16 @@ func kindOf(print string) string {
 }
 
 // Run runs machine m on a fresh context over tree t.
-func Run(m *xpath.Machine, t *Tree) (o Outcome) {
+func Run(m *xpath.Machine, t *Tree) (o Outcome) { return RunCtx(context.Background(), m, t) }
+
+// RunCtx: as Run, with the Go context the caller hands to NewCtxFromCurrent.
+func RunCtx(gctx context.Context, m *xpath.Machine, t *Tree) (o Outcome) {
 	defer func() {
 		if r := recover(); r != nil {
 			o.Panic = fmt.Sprint(r)
 		}
 	}()
-	res := xpath.NewCtxFromCurrent(context.Background(), m, t.Root()).Run()
+	res := xpath.NewCtxFromCurrent(gctx, m, t.Root()).Run()
 	if e := res.GetError(); e != nil {
 		o.Err = e.Error()
 		s := t.Sentinel
